@@ -116,9 +116,6 @@ func genConfig(r *vc.Rand, i int) *Config {
 	c.UserAt = genUserAt(r)
 	if r.Chance(1, 3) {
 		c.UserAfter = r.Range(1, 14)
-		if os.Getenv("VERIF_PROP") == "C03" && r.Chance(1, 2) {
-			c.UserConcurrent = true
-		}
 	}
 	c.IDSofC = vc.Pick(r, []string{"none", "right", "right", "wrong", "case"})
 	c.IDCofS = vc.Pick(r, []string{"none", "right", "right", "wrong", "case"})
@@ -503,6 +500,17 @@ func TestEngine(t *testing.T) {
 		res := run(t, c, wd)
 		wd.End()
 		evaluate(col, c, res)
+		if run_.Prop == "C03" && !onlyE2E && c.UserAfter > 0 && c.User != "never" && c.Timely && len(c.Causes) == 0 && i%2 == 0 {
+			// the same configuration once more, the user's action in parallel with the next delivery
+			cc := *c
+			cc.UserConcurrent = true
+			cc.ID = c.ID + "/user-in-parallel"
+			vc.Scn(cc.ID)
+			wd.Begin(cc.ID, func() any { return cc })
+			cres := run(t, &cc, wd)
+			wd.End()
+			evaluate(col, &cc, cres)
+		}
 		if i%500 == 0 {
 			col.Write(false)
 		}
